@@ -33,11 +33,28 @@ func normForm(f *ssa.Function, roleOf func(v ssa.Value) string) map[string]map[s
 	// the function itself plus the helpers only it uses (statements moved into a function of their own);
 	// shared utilities such as getGroupPath trim for their own purposes and are not part of the normal form
 	out := map[string]map[string]ssa.Instruction{"pattern": {}, "path": {}}
-	for _, g := range append([]*ssa.Function{f}, privateHelpersOf(f)...) {
+	private := map[*ssa.Function]bool{f: true}
+	for _, g := range privateHelpersOf(f) {
+		private[g] = true
+	}
+	all := []*ssa.Function{f}
+	withHelpers(func() { all = append(all, helpersOf(f)...) })
+	seen := map[*ssa.Function]bool{}
+	for _, g := range all {
+		if seen[g] {
+			continue
+		}
+		seen[g] = true
 		var part map[string]map[string]ssa.Instruction
 		withoutHelpers(func() { part = normFormOne(g, roleOf) })
 		for role, m := range part {
 			for k, v := range m {
+				// a helper shared with other functions contributes its configuration-guarded transformations only
+				// (the normal form is a set of flag → transformation pairs; what a shared utility trims
+				// unconditionally for its own purposes is not part of it)
+				if !private[g] && !strings.Contains(k, "@") {
+					continue
+				}
 				if _, ok := out[role][k]; !ok {
 					out[role][k] = v
 				}
@@ -359,10 +376,10 @@ func runC03(r *Run) {
 
 	r.rule("R4", "the constant that ends a parameter is searched as a whole: a single-byte search with ComparePart[0] is reachable only when len(ComparePart) == 1, and counting and locating use the same needle (E1/E5)", func() {
 		const cp = "routeSegment.ComparePart"
-		isWhole := func(v ssa.Value) bool { return loadOfField(v, cp) }
+		isWhole := func(v ssa.Value) bool { return valueIsField(v, cp) }
 		isFirstByte := func(v ssa.Value) bool {
 			ix, ok := stripValue(v).(*ssa.Index)
-			return ok && loadOfField(ix.X, cp) && isConstInt(ix.Index, 0)
+			return ok && valueIsField(ix.X, cp) && isConstInt(ix.Index, 0)
 		}
 		searchers := map[string]bool{"strings.Index": true, "strings.LastIndex": true, "strings.Count": true, "strings.IndexByte": true, "strings.LastIndexByte": true,
 			"strings.HasPrefix": true, "strings.Contains": true, "bytes.IndexByte": true, "bytes.LastIndexByte": true}
@@ -380,7 +397,11 @@ func runC03(r *Run) {
 					nByte++
 					cut := map[edge]bool{}
 					for _, br := range branchesIn(f) {
-						if lenOfField(stripValue(br.Info.Root), cp) {
+						lenOfCP := lenOfField(stripValue(br.Info.Root), cp)
+						if lc, ok := stripValue(br.Info.Root).(*ssa.Call); ok && calleeName(&lc.Call) == "builtin:len" && len(lc.Call.Args) == 1 && valueIsField(lc.Call.Args[0], cp) {
+							lenOfCP = true
+						}
+						if lenOfCP {
 							if sl, ok := br.eqIntSlot(1, true); ok {
 								cut[edge{br.If.Block(), sl}] = true
 							}
@@ -469,7 +490,7 @@ func runC03(r *Run) {
 				}
 			}
 		}
-		r.atLeast("stores into the value array", n, 3)
+		r.atLeast("stores into the value array", n, 2)
 	})
 }
 
